@@ -66,12 +66,14 @@ class Ctx:
         self.obs.append(r)
         return r
 
-    def prove(self, oid, function, goal, hyps=(), replay=None, clause=None, both=None):
+    def prove(self, oid, function, goal, hyps=(), replay=None, clause=None, both=None, first=None):
         """SMT obligation: ambient hyps + hyps |= goal."""
         if isinstance(goal, tm.S):
             goal = goal.t
         hs = [h.t if isinstance(h, tm.S) else h for h in list(self.hyps) + list(hyps)]
         use = "both" if (both if both is not None else self.tier == "thorough") else "fallback"
+        if first == "cvc5":
+            use = "first"
         try:
             res = solve.prove(hs, goal, use_cvc5=use)
         except RecursionError:
